@@ -2829,6 +2829,28 @@ class TrackFragmentRunBox(FullBox):
                 pos += nal.size + nal_length_field_length
                 sample.nals.append(nal)
 
+    def encode_fields(self, dest):
+        if (self.flags & self.data_offset_present) == 0 and self._is_first_run():
+            moof = self.find_atom(
+                'moof', check_parent=True, recurse_children=False,
+                no_exception=True)
+            tfhd = self.parent.tfhd
+            if (moof is not None and
+                    tfhd.base_data_offset in {None, moof.position}):
+                # the samples can't be at the start of the moof box. The
+                # data_offset field is required and has to be part of the
+                # box before its size is calculated
+                self.flags |= self.data_offset_present
+        super().encode_fields(dest)
+
+    def _is_first_run(self) -> bool:
+        if self.parent is None or self.parent._children is None:
+            return False
+        for child in self.parent._children:
+            if child.atom_type == 'trun':
+                return child is self or getattr(child, '_real_atom', None) is self
+        return False
+
     def encode_box_fields(self, dest):
         self._first_field_pos = dest.tell()
         self.output_box_fields(dest)
@@ -2858,26 +2880,34 @@ class TrackFragmentRunBox(FullBox):
         if mdat is None:
             self.options.log.info('%s: Failed to find mdat box', self._fullname)
             return
-        mdat_sample_start = moof.position + moof.size + mdat.header_size
-
-        first_sample_pos: int = moof.traf.tfhd.base_data_offset
-        if (self.flags & self.data_offset_present) != 0:
-            first_sample_pos += self.data_offset
-        if first_sample_pos != mdat_sample_start:
+        if (self.flags & self.data_offset_present) == 0:
+            # the run follows the previous run, or starts at the base offset
+            return
+        # the runs of a fragment are stored one after the other in the
+        # mdat box that follows the moof box
+        expected_pos: int = moof.position + moof.size + mdat.header_size
+        for traf in moof.children:
+            if traf.atom_type != 'traf' or expected_pos is None:
+                continue
+            for run in traf.children:
+                if run.atom_type != 'trun':
+                    continue
+                if run is self:
+                    break
+                expected_pos += sum(s.size for s in run.samples)
+            else:
+                continue
+            break
+        base_data_offset: int = self.parent.tfhd.base_data_offset
+        if (base_data_offset + self.data_offset) != expected_pos:
             self.options.log.debug(
                 'rewriting trun data_offset from %d to %d',
-                self.data_offset,
-                mdat_sample_start - moof.traf.tfhd.base_data_offset)
-            self.data_offset = mdat_sample_start - moof.traf.tfhd.base_data_offset
-            assert self.data_offset >= 0
+                self.data_offset, expected_pos - base_data_offset)
+            # (data_offset is a signed value)
+            self.data_offset = expected_pos - base_data_offset
             cur = dest.tell()
-            if (self.flags & self.data_offset_present) == 0:
-                self.flags |= self.data_offset_present
-                dest.seek(self.position + self.header_size)
-                self.encode_fields(dest)
-            else:
-                dest.seek(pos)
-                self.output_box_fields(dest)
+            dest.seek(pos)
+            self.output_box_fields(dest)
             dest.seek(cur)
 
 
